@@ -140,6 +140,7 @@ fn main() {
                     tape_multi_only: v["opts"]["tape_multi_only"].as_bool().unwrap_or(false),
                     check_ksf: v["opts"]["check_ksf"].as_bool().unwrap_or(false),
                     shared_rng: v["opts"]["shared_rng"].as_bool().unwrap_or(false),
+                    same_tapes: v["opts"]["same_tapes"].as_bool().unwrap_or(false),
                     msg_codec: v["opts"]["msg_codec"].as_u64().unwrap_or(0) as u8,
                     ext_fail_at: v["opts"]["ext_fail_at"].as_u64().unwrap_or(1) as u32,
                 };
@@ -181,13 +182,14 @@ fn main() {
                     tape_multi_only: args.get("tape-multi-only", "no") == "yes",
                     check_ksf: args.get("check-ksf", "no") == "yes",
                     shared_rng: args.get("shared-rng", "no") == "yes",
+                    same_tapes: args.get("same-tapes", "no") == "yes",
                     msg_codec: match args.get("msg-codec", "native").as_str() { "bincode" => 1, "json" => 2, _ => 0 },
                     ext_fail_at: args.num("ext-fail-at", 1) as u32,
                 },
             };
             let opts_json = json!({"sweep": args.get("sweep", "none"), "sweep_fin": job.opts.sweep_fin,
                 "shadow_no_reload": job.opts.shadow_no_reload, "shadow_direct": job.opts.shadow_direct,
-                "scan_secrets": job.opts.scan_secrets, "tape_swap": job.opts.tape_swap, "tape_multi_only": job.opts.tape_multi_only, "check_ksf": job.opts.check_ksf, "shared_rng": job.opts.shared_rng, "msg_codec": job.opts.msg_codec,
+                "scan_secrets": job.opts.scan_secrets, "tape_swap": job.opts.tape_swap, "tape_multi_only": job.opts.tape_multi_only, "check_ksf": job.opts.check_ksf, "shared_rng": job.opts.shared_rng, "same_tapes": job.opts.same_tapes, "msg_codec": job.opts.msg_codec,
                 "ext_fail_at": job.opts.ext_fail_at});
             let t0 = std::time::Instant::now();
             let sum = replay::run(&job);
